@@ -2,7 +2,7 @@
    call-graph table generated from the source (BlockView.known_blocked_path /
    known_inversion).  The runner reads the harness output of the case (NOTE CHAIN / NOTE
    INVERSION lines) and prints the B / D lines with the verdict recomputed from the table;
-   the P / E / H / U lines are dynamic outcomes judged by the oracle and are echoed. *)
+   the P / E / H / U / F lines are dynamic outcomes judged by the oracle and are echoed. *)
 open Kutil
 
 let run (id : string) (_hdr : string list) (_lines : string list list) (out : string -> unit) =
@@ -25,5 +25,5 @@ let run (id : string) (_hdr : string list) (_lines : string list list) (out : st
       match l with
       | "B" :: op :: _ -> pr (Printf.sprintf "B %s chain=%s" op (if known_chain () then "known" else "unknown"))
       | "D" :: op :: _ -> pr (Printf.sprintf "D %s inversion=%s" op (if known_inv () then "known" else "unknown"))
-      | ("P" | "E" | "H" | "U") :: _ -> pr (Stdlib.String.concat " " l)
+      | ("P" | "E" | "H" | "U" | "F") :: _ -> pr (Stdlib.String.concat " " l)
       | _ -> ()) impl
